@@ -17,6 +17,8 @@ pub struct Instance {
     pub custom: Box<dyn FnMut(&str, &str)>,
     /// property-level oracle, evaluated after the execution
     pub check: Box<dyn FnOnce(&Outcome) -> Vec<Violation>>,
+    /// called after the oracle when the execution did not finish: release blocked actors
+    pub unstick: Box<dyn FnMut()>,
 }
 
 pub type Builder = fn(&'static Ctrl, &Value) -> Instance;
@@ -126,9 +128,13 @@ pub fn main(args: &[String]) -> i32 {
 
     let mut run_one = |chooser: &mut dyn Chooser, st: &mut Stats, label: &str| -> Outcome {
         let inst = builder(ctl, &params);
-        let Instance { opts, actors, mut custom, check } = inst;
+        let Instance { opts, actors, mut custom, check, mut unstick } = inst;
         eprintln!("RUN {label}");
-        let out = execute(ctl, &opts, actors, chooser, &mut *custom);
+        let t0 = std::time::Instant::now();
+        let (out, handles) = execute(ctl, &opts, actors, chooser, &mut *custom);
+        if std::env::var("MV_TIMING").is_ok() {
+            eprintln!("  took {:?} end={:?} steps={} sched={}", t0.elapsed(), out.end, out.schedule.len(), schedule_json(&out.schedule));
+        }
         st.runs += 1;
         st.steps += out.schedule.len();
         if let End::Tool(e) = &out.end {
@@ -167,6 +173,7 @@ pub fn main(args: &[String]) -> i32 {
         if st.samples.len() < 3 && switches(&out.schedule) >= 2 {
             st.samples.push(json!({"run": label, "end": format!("{:?}", out.end), "schedule": schedule_json(&out.schedule)}));
         }
+        finish(ctl, &out, handles, &mut *unstick);
         if let Some(w) = traces.as_mut() {
             let _ = writeln!(w, "{}", json!({"ev": "reset", "run": label}));
             for e in trace_json(&out.names, &out.trace) {
